@@ -70,6 +70,22 @@ class DictV:
         return "DictV(%r)" % (self.items,)
 
 
+class SliceV:
+    """slice(lo, hi, step) as a value (None for an omitted bound)."""
+    __slots__ = ("lo", "hi", "step")
+
+    def __init__(self, lo, hi, step):
+        self.lo, self.hi, self.step = lo, hi, step
+
+
+class StrTplV:
+    """string.Template(text)."""
+    __slots__ = ("text",)
+
+    def __init__(self, text):
+        self.text = text
+
+
 class PartialV:
     """functools.partial(fn, *args, **kwargs): calling it calls fn with the fixed arguments first."""
     __slots__ = ("fn", "args", "kwargs")
@@ -104,12 +120,13 @@ class Cat:
 
 
 class Closure:
-    __slots__ = ("func", "env", "selfv")
+    __slots__ = ("func", "env", "selfv", "raw")
 
-    def __init__(self, func, env, selfv=None):
+    def __init__(self, func, env, selfv=None, raw=False):
         self.func = func  # core.Func
         self.env = env
         self.selfv = selfv
+        self.raw = raw  # the undecorated function object (what a decorator of the package receives)
 
     def __repr__(self):
         return "Closure(%s)" % self.func.qual
@@ -379,6 +396,14 @@ class State:
         return s
 
 
+def _as_bool(x):
+    if isinstance(x, bool):
+        return x
+    if isinstance(x, Const) and isinstance(x.v, bool):
+        return x.v
+    return None
+
+
 def _heapcopy(h):
     if isinstance(h, LazyHeap):
         return LazyHeap(h.ev, dict.copy(h))
@@ -518,6 +543,23 @@ class Evaluator:
             elif isinstance(t, tuple) and t[0] == "or" and not p_:
                 for x in t[1:]:
                     add(x, False)
+            elif isinstance(t, tuple) and t[0] == "phi" and len(t) == 4 and (_as_bool(t[2]) is not None or _as_bool(t[3]) is not None):
+                # phi(A, x, y) == p with a constant side that differs from p: the other side was taken
+                bx, by = _as_bool(t[2]), _as_bool(t[3])
+                if bx is not None and bx != p_:
+                    add(t[1], False)
+                    if by is None:
+                        add(t[3], p_)
+                elif by is not None and by != p_:
+                    add(t[1], True)
+                    if bx is None:
+                        add(t[2], p_)
+                else:
+                    k = ckey(t)
+                    if k not in ev.facts:
+                        ev.facts[k] = p_
+                        ev.fact_trees[k] = t
+                        added.append(k)
             else:
                 k = ckey(t)
                 if k not in ev.facts:
@@ -902,8 +944,11 @@ class Evaluator:
         c = self.cond(n.test, st)
         if isinstance(c, Const):
             return self.expr(n.body if c.v else n.orelse, st)
-        a = self.expr(n.body, st)
-        b = self.expr(n.orelse, st)
+        # each arm is evaluated knowing which way the condition went (`x if p is None else f(*p)`)
+        with self.assuming(c, True):
+            a = self.expr(n.body, st)
+        with self.assuming(c, False):
+            b = self.expr(n.orelse, st)
         return mkphi(c, a, b)
 
     def e_UnaryOp(self, n, st):
@@ -1360,7 +1405,7 @@ class Evaluator:
                 # a class-level table / constant read through the instance (never stored on the instance: heap miss above)
                 if base.kind in ("obj", "new") and not self._instance_writes(base.cls, attr):
                     v = self._class_attr(base.cls, attr)
-                    if isinstance(v, (DictV, Const, Num, Seq)):
+                    if isinstance(v, (DictV, Const, Num, Seq, StrTplV, Template)):
                         return v
             if attr in ("sort", "reverse", "append", "extend", "pop", "insert", "remove", "index", "copy") and (base.kind in ("seq", "copy") or (base.cls is None and base.kind not in ("new", "obj")) or "[" in base.text.rsplit(".", 1)[-1]):
                 return Bound(base, attr)
@@ -1372,7 +1417,7 @@ class Evaluator:
             a = self.getattr(base.a, attr, st)
             b = self.getattr(base.b, attr, st)
             return mkphi(base.cond, a, b)
-        if isinstance(base, (Seq, DictV, Const, Template, StrSym, OverrideV)):
+        if isinstance(base, (Seq, DictV, Const, Template, StrSym, OverrideV, StrTplV)):
             return Bound(base, attr)
         if isinstance(base, Num):
             return Opaque("%s.%s" % (key(base), attr))
@@ -1420,6 +1465,8 @@ class Evaluator:
             step = self.expr(n.slice.step, st) if n.slice.step is not None else None
             return self.getslice(base, lo, hi, step)
         idx = self.expr(n.slice, st)
+        if isinstance(idx, SliceV):
+            return self.getslice(base, idx.lo, idx.hi, idx.step)
         r = self.getitem(base, idx, st)
         if isinstance(r, Opaque) and r.kind in ("indexerror", "keyerror") and isinstance(n.ctx, ast.Load):
             # a constant subscript outside a sequence / dict whose shape is known on this path
@@ -1535,6 +1582,7 @@ class Evaluator:
                     return False
                 for x_ in items_:
                     s3 = State(Env({}, s_.env, s_.env.module, s_.env.func), s_.heap)
+                    s3.heap = s_.heap  # objects created by the element expression stay visible (shared, not copied)
                     s3.events = s_.events
                     self.bind(g_.target, x_, s3)
                     keep = True
@@ -1659,9 +1707,18 @@ class Evaluator:
         args = []
         for a in n.args:
             if isinstance(a, ast.Starred):
-                v = self.expr(a.value, st)
+                v = self.refine(self.expr(a.value, st))
                 if isinstance(v, Seq):
                     args.extend(v.items)
+                elif isinstance(v, Phi) and _phi_size(v) <= 8 and not n.keywords and len(n.args) == 1:
+                    # f(*x) with x one of several tuples depending on a condition: the call on each, gated the same way
+                    def on_branch(xs, fv=fv):
+                        b = xs[0]
+                        if isinstance(b, Seq):
+                            return self.call(fv, list(b.items), {}, st, n)
+                        return Opaque("%s(*%s)" % (key(fv), key(b)))
+
+                    return self._dist(on_branch, [v])
                 else:
                     return Opaque("%s(*%s)" % (key(fv), key(v)))
             else:
@@ -1745,8 +1802,34 @@ class Evaluator:
             b[f.kwarg] = DictV({k: v for k, v in kwargs.items() if k not in params and k not in f.kwonly})
         return b
 
+    def _user_decorators(self, f):
+        """Decorators of f that are functions of the package (they replace the function by what they return)."""
+        memo = self.__dict__.setdefault("_udeco", {})
+        if f.qual not in memo:
+            out = []
+            for d in getattr(f.node, "decorator_list", []) if not f.is_lambda else []:
+                if isinstance(d, ast.Name):
+                    q = "%s.%s" % (f.module.name, d.id)
+                    g = self.P.funcs.get(q)
+                    if g is None and self.P.has_func(q):
+                        g = self.P.func(q)
+                    if g is not None and g.parent is None and g.cls is None:
+                        out.append(g)
+            memo[f.qual] = out
+        return memo[f.qual]
+
     def call_closure(self, c, args, kwargs, st, node=None):
         f = c.func
+        if not c.raw and not f.is_lambda and getattr(f.node, "decorator_list", None):
+            decos = self._user_decorators(f)
+            if decos and (self.inline_filter is None or self.inline_filter(f)):
+                # the name is bound to what the decorators return for the plain function: evaluate that and call it instead
+                v = Closure(f, c.env, None, raw=True)
+                for g in reversed(decos):
+                    v = self.call_closure(Closure(g, None), [v], {}, st, node)
+                if isinstance(v, Closure):
+                    return self.call_closure(Closure(v.func, v.env, c.selfv, raw=v.raw), args, kwargs, st, node)
+                return self.call(v, ([c.selfv] if c.selfv is not None else []) + list(args), kwargs, st, node)
         if self.inline_filter is not None and not self.inline_filter(f):
             if kwargs:
                 # name the call by its arguments in parameter order, however they were passed
@@ -1763,7 +1846,15 @@ class Evaluator:
             if c.selfv is not None and not isinstance(c.selfv, ClassRef):
                 return Opaque("%s.%s(%s)" % (key(c.selfv), f.name, ", ".join(key(a) for a in args)))
             return Opaque("%s(%s)" % (self.qual_alias.get(f.qual, f.qual), ", ".join(key(a) for a in args)))
-        if len(self.stack) >= self.max_depth or any(x is f for x in self.stack):
+        reentry = any(x is f for x in self.stack)
+        if reentry:
+            # recursion driven by data of known shape (a literal table that is walked) unfolds as far as the data goes:
+            # allowed when some argument is a container of known shape and this very call is not already being evaluated
+            sig = (f.qual, tuple(key(a) for a in args), tuple(sorted((k, key(v)) for k, v in kwargs.items())))
+            frames = self.__dict__.setdefault("_rec_frames", [])
+            if any(isinstance(a, (DictV, Seq)) for a in list(args) + list(kwargs.values())) and sig not in frames and sum(1 for x in self.stack if x is f) < 6:
+                reentry = False
+        if len(self.stack) >= self.max_depth or reentry:
             st.events.append(("call-noinline", f.qual, [key(a) for a in args], node))
             return Opaque("%s(%s)" % (f.qual, ", ".join(key(a) for a in args)))
         b = self.bind_params(f, args, kwargs, c.selfv, st)
@@ -1773,10 +1864,13 @@ class Evaluator:
         st2 = State(env, st.heap)
         st2.events = st.events
         self.stack.append(f)
+        frames = self.__dict__.setdefault("_rec_frames", [])
+        frames.append((f.qual, tuple(key(a) for a in args), tuple(sorted((k, key(v)) for k, v in kwargs.items()))))
         try:
             r = self.run_function(f, st2)
         finally:
             self.stack.pop()
+            frames.pop()
         st.heap = st2.heap
         st.havoc |= st2.havoc
         return r
@@ -1851,6 +1945,23 @@ class Evaluator:
         init = self.P.method(cls, "__init__")
         if init is not None:
             self.call_closure(Closure(init, None, selfv=obj), args, kwargs, st, node)
+        elif any(getattr(k, "is_record", False) for k in self.P.mro(cls)):
+            # generated constructor of a NamedTuple / dataclass: fields in declaration order, defaults from the class body
+            fields = []
+            defaults = {}
+            for k in reversed(self.P.mro(cls)):
+                for fn_ in k.fields:
+                    if fn_ not in fields:
+                        fields.append(fn_)
+                defaults.update(k.field_defaults)
+            given = dict(zip(fields, args))
+            given.update({k_: v_ for k_, v_ in kwargs.items() if k_ in fields})
+            for fn_ in fields:
+                if fn_ in given:
+                    st.heap[(name, fn_)] = given[fn_]
+                elif fn_ in defaults:
+                    st0 = State(Env({}, self.module_env(cls.module.name), cls.module.name, None))
+                    st.heap[(name, fn_)] = self.expr(defaults[fn_], st0)
         st.events.append(("new", cls.qual, name, [key(a) for a in args], node))
         return obj
 
@@ -1869,6 +1980,13 @@ class Evaluator:
         short = name.split(".")[-1]
         if name in ("functools.partial", "partial") and args:
             return PartialV(args[0], list(args[1:]), dict(kwargs))
+        if name == "slice" and 1 <= len(args) <= 3 and not kwargs:
+            a = [None if (isinstance(x, Const) and x.v is None) else x for x in args]
+            if len(a) == 1:
+                return SliceV(None, a[0], None)
+            return SliceV(a[0], a[1], a[2] if len(a) > 2 else None)
+        if name in ("string.Template",) and len(args) == 1 and isinstance(args[0], Const) and isinstance(args[0].v, str) and not kwargs:
+            return StrTplV(args[0].v)
         if name.startswith("operator.") and not kwargs:
             # the operator module's functions are the operators
             _bin = {"add": ast.Add, "sub": ast.Sub, "mul": ast.Mult, "truediv": ast.Div, "floordiv": ast.FloorDiv, "mod": ast.Mod, "pow": ast.Pow}
@@ -2064,6 +2182,17 @@ class Evaluator:
                     cnd = Cond(("cmp", "eq", args[1], l))
                     self.setattr(args[0], l.v, mkphi(cnd, args[2], old), st, node)
                 return NONE
+        if name in ("copy.copy",) and len(args) == 1 and isinstance(args[0], Opaque) and args[0].cls is not None and args[0].kind in ("new", "obj"):
+            # a shallow copy of an instance: a new object of the same class whose attributes are the same objects
+            src = args[0]
+            self.fresh += 1
+            nm = "new:%s@%s#%d" % (src.cls.name, getattr(node, "lineno", "?"), self.fresh)
+            dup = Opaque(nm, cls=src.cls, kind="new")
+            for (o, a), v in list(dict.items(st.heap)):
+                if o == src.text:
+                    st.heap[(nm, a)] = v
+            st.events.append(("new", src.cls.qual, nm, [key(src)], node))
+            return dup
         if name == "copy.deepcopy" and len(args) == 1:
             return args[0] if isinstance(args[0], (Num, Const)) else Opaque("deepcopy(%s)" % key(args[0]), cls=getattr(args[0], "cls", None), kind="deepcopy")
         if name in ("datetime.datetime", "datetime.time") and not kwargs:
@@ -2081,6 +2210,35 @@ class Evaluator:
 
     def call_bound(self, b, args, kwargs, st, node):
         recv, name = b.recv, b.name
+        if isinstance(recv, StrTplV) and name in ("substitute", "safe_substitute"):
+            import re as _re
+
+            mp = {}
+            if args and isinstance(args[0], DictV):
+                mp.update(args[0].items)
+            mp.update(kwargs)
+            parts = []
+            pos = 0
+            for m in _re.finditer(r"\$(?:(\$)|([_a-zA-Z][_a-zA-Z0-9]*)|\{([_a-zA-Z][_a-zA-Z0-9]*)\})", recv.text):
+                if m.start() > pos:
+                    parts.append(("lit", recv.text[pos:m.start()]))
+                pos = m.end()
+                if m.group(1):
+                    parts.append(("lit", "$"))
+                    continue
+                nm = m.group(2) or m.group(3)
+                if nm in mp:
+                    v = mp[nm]
+                    if not (isinstance(v, (Const, Template, StrSym)) or (isinstance(v, Opaque) and v.kind == "str")):
+                        v = self.call_ext("str", [v], {}, st, node)  # substitute() inserts str(value)
+                    parts.append(("hole", v, "str"))
+                elif name == "safe_substitute":
+                    parts.append(("lit", m.group(0)))
+                else:
+                    parts.append(("hole", Opaque("<KeyError %s>" % nm), "str"))
+            if pos < len(recv.text):
+                parts.append(("lit", recv.text[pos:]))
+            return self._mk_template(parts)
         if isinstance(recv, Opaque):
             st.events.append(("seq-" + name, recv.text, list(args), dict(kwargs), node))
             if name in ("sort", "reverse", "append", "extend", "insert", "remove"):
@@ -2183,6 +2341,34 @@ class Evaluator:
                 return Const(getattr(s, name)())
             if name == "startswith" and len(args) == 1 and isinstance(args[0], Const):
                 return Const(s.startswith(args[0].v))
+            # any other side-effect-free str method on a constant string with constant arguments is computed
+            if name in ("endswith", "startswith", "removeprefix", "removesuffix", "replace", "split", "rsplit", "partition", "rpartition", "find", "rfind", "index", "count", "title", "capitalize",
+                        "isdigit", "isalpha", "isalnum", "isupper", "islower", "isnumeric", "isidentifier", "isspace", "zfill", "ljust", "rjust", "center", "strip", "lstrip", "rstrip", "casefold", "swapcase", "splitlines", "encode") \
+                    and not kwargs and all(isinstance(a, Const) or (num_const(a) is not None and num_const(a).denominator == 1) or (isinstance(a, Seq) and a.kind == "tuple" and all(isinstance(x, Const) for x in a.items)) for a in args):
+                def pyv(a):
+                    if isinstance(a, Const):
+                        return a.v
+                    if isinstance(a, Seq):
+                        return tuple(x.v for x in a.items)
+                    return int(num_const(a))
+
+                try:
+                    r = getattr(s, name)(*[pyv(a) for a in args])
+                except Exception:
+                    r = None
+                else:
+                    def wrap(x):
+                        if isinstance(x, bool) or isinstance(x, str) or x is None or isinstance(x, bytes):
+                            return Const(x)
+                        if isinstance(x, int):
+                            return C(x)
+                        if isinstance(x, (list, tuple)):
+                            return Seq("list" if isinstance(x, list) else "tuple", [wrap(y) for y in x])
+                        return None
+
+                    w = wrap(r)
+                    if w is not None:
+                        return w
         if isinstance(recv, StrSym):
             r = recv.method(name, args)
             if r is not None:
@@ -2955,6 +3141,10 @@ def key(v):  # noqa: F811  (extend with auxiliary values)
         return "override(%s[%r], %s)" % (key(v.o), v.k, key(v.old))
     if isinstance(v, StrSym):
         return "S<%s%s>" % (",".join(v.chars), "^" if v.upper else "")
+    if isinstance(v, SliceV):
+        return "slice(%s, %s%s)" % ("None" if v.lo is None else key(v.lo), "None" if v.hi is None else key(v.hi), "" if v.step is None else ", " + key(v.step))
+    if isinstance(v, StrTplV):
+        return "string.Template(%r)" % v.text
     if isinstance(v, PartialV):
         return "partial(%s)" % ", ".join([key(v.fn)] + [key(a) for a in v.args] + ["%s=%s" % (k, key(x)) for k, x in sorted(v.kwargs.items())])
     return _old_key(v)
